@@ -180,8 +180,8 @@ inductive Run (code : Code) : Cfg → List V → Option Err → Prop where
   | stop {c e R} : Steps code c (.fail [] e R) → Run code c [] e
   | emit {c c' c'' w ws e} : Steps code c c' → emits code c' = some (w, c'') → Run code c'' ws e → Run code c (w :: ws) e
 
-theorem yields_run {code O o m pr} (hret : code[pr]? = some .ret) {c outs e}
-    (y : Yields code O o [m] [] pr [] c outs e) : Run code c outs e := by
+theorem yields_run {code O P o m pr} (hret : code[pr]? = some .ret) {c outs e}
+    (y : Yields code O P o [m] [] pr [] c outs e) : Run code c outs e := by
   induction y with
   | done hs _ => exact .stop hs
   | @out c w ws e F' R1 o1 cp _ hs _ _ _ _ ih =>
@@ -264,16 +264,16 @@ theorem prog_refines (p : Prog) (hwf : p.WF) (v : V) (n : Nat)
     (hnd : ND (eval p.defsFn n none .none p.main v).stop) :
     Run (compileProg p) (initCfg (compileProg p) v)
       (eval p.defsFn n none .none p.main v).outs (eval p.defsFn n none .none p.main v).stop.toErr := by
-  let m : Frame := ⟨0, (compileProg p).length - 1, 0, 0, none, 0, none⟩
+  let m : Frame := ⟨0, (compileProg p).length - 1, 0, 0, none⟩
   let cp : CP := ((compileProg p).length - 1, none)
   have s1 : Steps (compileProg p) (initCfg (compileProg p) v)
-      (.run 1 [.v v] [] false none (fun _ => .null) [m] (1 + funcsLen p.defs + p.main.size) cp) :=
+      (.run 1 [.v v] [] false none (fun _ => .v .null) [m] (1 + funcsLen p.defs + p.main.size) cp) :=
     Steps.one (by simp [step, initCfg, prog_scope0, m, cp])
-  have s2 := skip_defs p [.v v] [] false none (fun _ => .null) [m] (1 + funcsLen p.defs + p.main.size) cp p.defs.length 0 (by omega)
+  have s2 := skip_defs p [.v v] [] false none (fun _ => .v .null) [m] (1 + funcsLen p.defs + p.main.size) cp p.defs.length 0 (by omega)
   simp only [List.take_zero, funcsLen, List.map_nil, List.sum_nil, Nat.add_zero] at s2
   have y := compile_yields (funcsOK_compileProg p hwf) n p.main none 0 (1 + funcsLen p.defs) (Nat.zero_le _)
-    (prog_main_seg p) hwf.main_closed .none v [] [] (fun _ => .null) [m] (1 + funcsLen p.defs + p.main.size) cp
-    ⟨m, [], rfl, rfl, by simp only [m]; omega⟩ (by simp [scopeOf]) (fun h => absurd h hwf.main_noparam) EnvRel.none
+    (prog_main_seg p) hwf.main_closed .none v [] [] (fun _ => .v .null) [m] (1 + funcsLen p.defs + p.main.size) cp
+    (fun _ => False) ⟨m, [], rfl, rfl⟩ (by simp [scopeOf]) (fun h => absurd h hwf.main_noparam) (fun _ h => h.elim) EnvRel.none
     (by simp only [base, m, compile_length]; omega) hnd
   have hret : (compileProg p)[1 + funcsLen p.defs + (compile (entryOf p.defs) none 0 (1 + funcsLen p.defs) p.main).length]? = some .ret := by
     rw [compile_length]; exact prog_ret p
